@@ -1,4 +1,6 @@
 import HgVerif.Lemmas.SlotsSet
+import HgVerif.Lemmas.SlotsDict
+import HgVerif.Lemmas.SlotsWin
 /-!
 # C05 — collection deltas are coherent with collection values at every tick
 
@@ -188,5 +190,726 @@ theorem tss_remove_add_no_trace {x : TSS} {V0 : List Key} (h : x.Inv V0) {t : Ti
   refine ⟨h2.1, fun k' => ⟨hv k', ?_, ?_⟩⟩
   · rw [(tss_delta_canonical h2.1 k').1, (tss_delta_canonical h k').1, hv k']
   · rw [(tss_delta_canonical h2.1 k').2, (tss_delta_canonical h k').2, hv k']
+
+
+/-! ### cycles: with non-decreasing times a delta window is exactly one engine cycle -/
+
+theorem snoc_ind {α : Type} {P : List α → Prop} (h0 : P []) (hs : ∀ l a, P l → P (l ++ [a])) (l : List α) : P l := by
+  have : ∀ r : List α, P r.reverse := by
+    intro r
+    induction r with
+    | nil => exact h0
+    | cons a t ih => rw [List.reverse_cons]; exact hs _ _ ih
+  simpa using this l.reverse
+
+/-- latest evaluation time used by a history -/
+def maxTime (ops : List SetOp) : Nat := ops.foldl (fun m o => max m o.time) 0
+
+theorem maxTime_snoc (ops : List SetOp) (o : SetOp) : maxTime (ops ++ [o]) = max (maxTime ops) o.time := by
+  simp [maxTime, List.foldl_append]
+
+/-- in every reachable state `delta_time_` and `last_modified_time` are the latest time used -/
+theorem tss_times (ops : List SetOp) :
+    (GSet.run ops).x.deltaTime = maxTime ops ∧ (GSet.run ops).x.lmt = maxTime ops := by
+  induction ops using snoc_ind with
+  | h0 => exact ⟨rfl, rfl⟩
+  | hs l o ih =>
+    have h := TSS.step_inv (tss_inv_reachable l) o
+    rw [GSet.run_snoc, maxTime_snoc]
+    show ((GSet.run l).x.step o).deltaTime = _ ∧ ((GSet.run l).x.step o).lmt = _
+    rw [h.2.1, h.2.2, ih.1, ih.2]
+    exact ⟨rfl, rfl⟩
+
+/-- evaluation times never decrease (the engine's clock) -/
+def Nondecreasing (ops : List SetOp) : Prop := ops.Pairwise (fun a b => a.time ≤ b.time)
+
+theorem maxTime_le_of_sorted {ops : List SetOp} {o : SetOp} (h : Nondecreasing (ops ++ [o])) :
+    maxTime ops ≤ o.time := by
+  have hall : ∀ a ∈ ops, a.time ≤ o.time := by
+    intro a ha
+    have := (List.pairwise_append.mp h).2.2 a ha o (by simp)
+    exact this
+  clear h
+  induction ops using snoc_ind with
+  | h0 => simp [maxTime]
+  | hs l a ih =>
+    rw [maxTime_snoc]
+    have h1 := ih (fun b hb => hall b (by simp [hb]))
+    have h2 := hall a (by simp)
+    omega
+
+/-- with non-decreasing times the ghost is the value reached by the operations of all earlier cycles -/
+theorem tss_ghost_is_cycle_start (ops : List SetOp) (o : SetOp) (hs : Nondecreasing (ops ++ [o])) (h0 : o.time ≠ 0) :
+    (GSet.run (ops ++ [o])).v0 = (TSS.run {} (ops.filter (fun a => a.time < o.time))).value := by
+  induction ops using snoc_ind generalizing o with
+  | h0 =>
+    simp only [List.nil_append, GSet.run, List.foldl_cons, List.foldl_nil, GSet.step, TSS.ghost, List.filter_nil,
+      TSS.run]
+    have : ¬ o.time ≤ (({} : GSet).x).deltaTime := by
+      show ¬ o.time ≤ 0
+      omega
+    simp [this]
+  | hs l p ih =>
+    have hsl : Nondecreasing (l ++ [p]) := (List.pairwise_append.mp hs).1
+    have hpo : p.time ≤ o.time := (List.pairwise_append.mp hs).2.2 p (by simp) o (by simp)
+    have hdt : (GSet.run (l ++ [p])).x.deltaTime = p.time := by
+      rw [(tss_times (l ++ [p])).1, maxTime_snoc]
+      have := maxTime_le_of_sorted hsl
+      omega
+    rw [GSet.run_snoc]
+    show (GSet.run (l ++ [p])).x.ghost (GSet.run (l ++ [p])).v0 o.time = _
+    unfold TSS.ghost
+    rw [hdt]
+    by_cases hle : o.time ≤ p.time
+    · have heq : o.time = p.time := by omega
+      simp only [hle, ↓reduceIte]
+      rw [ih p hsl (by omega)]
+      simp only [List.filter_append, List.filter_cons, List.filter_nil, heq, Nat.lt_irrefl, decide_false,
+        Bool.false_eq_true, ↓reduceIte, List.append_nil]
+    · simp only [hle, ↓reduceIte]
+      rw [GSet.run_x]
+      have hall : ∀ a ∈ l ++ [p], a.time < o.time := by
+        intro a ha
+        rcases List.mem_append.mp ha with ha | ha
+        · have := (List.pairwise_append.mp hsl).2.2 a ha p (by simp)
+          omega
+        · simp at ha; subst ha; omega
+      have : (l ++ [p]).filter (fun a => decide (a.time < o.time)) = l ++ [p] := by
+        apply List.filter_eq_self.mpr
+        intro a ha; simpa using hall a ha
+      rw [this]
+
+/-- **a delta window is a cycle**: after a history with non-decreasing times whose last operation is at
+    `T ≠ MIN_DT`, the ghost is the value at the previous tick (the value reached by the operations of all
+    earlier cycles, time `< T`), and the output view at `T` reports `modified` and shows the raw
+    `added_/removed_` bits. -/
+theorem tss_window_is_cycle (ops : List SetOp) (o : SetOp) (hs : Nondecreasing (ops ++ [o])) (h0 : o.time ≠ 0) :
+    (GSet.run (ops ++ [o])).v0 = (TSS.run {} (ops.filter (fun a => a.time < o.time))).value ∧
+    (TSS.run {} (ops ++ [o])).modifiedAt o.time = true ∧
+    (TSS.run {} (ops ++ [o])).addedAt o.time = addedKeysRaw (TSS.run {} (ops ++ [o])).keys.slots ∧
+    (TSS.run {} (ops ++ [o])).removedAt o.time = removedKeysRaw (TSS.run {} (ops ++ [o])).keys.slots := by
+  have hmod : (TSS.run {} (ops ++ [o])).modifiedAt o.time = true := by
+    rw [← GSet.run_x]
+    have := (tss_times (ops ++ [o])).2
+    rw [maxTime_snoc] at this
+    have hle := maxTime_le_of_sorted hs
+    simp only [TSS.modifiedAt, this]
+    have : max (maxTime ops) o.time = o.time := by omega
+    simp [this, h0]
+  exact ⟨tss_ghost_is_cycle_start ops o hs h0, hmod, by simp [TSS.addedAt, hmod], by simp [TSS.removedAt, hmod]⟩
+
+/-! ### from empty, the value is the fold of all deltas -/
+
+/-- apply a delta `(added, removed)` to a value -/
+def applyDelta (v : List Key) (d : List Key × List Key) : List Key :=
+  v.filter (fun k => !d.2.contains k) ++ d.1
+
+theorem mem_applyDelta (v : List Key) (d : List Key × List Key) (k : Key) :
+    k ∈ applyDelta v d ↔ (k ∈ v ∧ k ∉ d.2) ∨ k ∈ d.1 := by
+  simp [applyDelta]
+
+def foldDeltas (hist : List (List Key × List Key)) : List Key := hist.foldl applyDelta []
+
+/-- the ghost value is the fold of the deltas of all completed windows -/
+theorem tss_ghost_eq_fold (ops : List SetOp) (k : Key) :
+    k ∈ (GSet.run ops).v0 ↔ k ∈ foldDeltas (GSet.run ops).hist := by
+  induction ops using snoc_ind generalizing k with
+  | h0 => simp [GSet.run, foldDeltas]
+  | hs l o ih =>
+    rw [GSet.run_snoc]
+    simp only [GSet.step, TSS.ghost]
+    by_cases hle : o.time ≤ (GSet.run l).x.deltaTime
+    · simp only [hle, ↓reduceIte]; exact ih k
+    · simp only [hle, ↓reduceIte, foldDeltas, List.foldl_append, List.foldl_cons, List.foldl_nil]
+      rw [mem_applyDelta]
+      have hc := (tss_delta_coherent (tss_inv_reachable l)).1 k
+      rw [hc, ih k]
+      rfl
+
+/-- **from empty the value equals the fold of all deltas**: the completed windows' deltas followed by the
+    current window's delta reproduce the current value -/
+theorem tss_value_eq_fold (ops : List SetOp) (k : Key) :
+    k ∈ (TSS.run {} ops).value ↔
+      k ∈ applyDelta (foldDeltas (GSet.run ops).hist)
+        (addedKeysRaw (TSS.run {} ops).keys.slots, removedKeysRaw (TSS.run {} ops).keys.slots) := by
+  rw [mem_applyDelta, ← tss_ghost_eq_fold, ← GSet.run_x]
+  exact (tss_delta_coherent (tss_inv_reachable ops)).1 k
+
+
+/-! ## TSD  (keys with a valid value; element `TS<Int>`) -/
+
+/-- the structural delta bits are a function of the valid key set and its window-start value alone -/
+theorem tsd_delta_canonical {x : TSD} {V0 : List Key} (h : x.Inv V0) (k : Key) :
+    (k ∈ addedKeysRaw x.keys.slots ↔ k ∈ x.validKeys ∧ k ∉ V0) ∧
+    (k ∈ removedKeysRaw x.keys.slots ↔ k ∈ V0 ∧ k ∉ x.validKeys) := by
+  simp only [mem_addedKeysRaw, mem_removedKeysRaw, mem_validKeys]
+  constructor
+  · constructor
+    · rintro ⟨i, ha, hk⟩
+      obtain ⟨_, o2, _, o4, _⟩ := h.slot i
+      have hp := (o4 ha).1
+      exact ⟨⟨i, (o2 hp).1, (o2 hp).2, hk⟩, by rw [← hk]; exact (o4 ha).2⟩
+    · rintro ⟨⟨i, hl, hc, hk⟩, hnv⟩
+      obtain ⟨_, _, o3, _, _, o6, _⟩ := h.slot i
+      refine ⟨i, ?_, hk⟩
+      cases ha : (sget x.keys.slots i).added with
+      | true => rfl
+      | false => exact absurd (hk ▸ o6 (o3 hl hc) ha) hnv
+  · constructor
+    · rintro ⟨i, hr, hk⟩
+      obtain ⟨_, _, _, _, o5, _⟩ := h.slot i
+      refine ⟨by rw [← hk]; exact (o5 hr).2.1, ?_⟩
+      rintro ⟨j, hl, _, hkj⟩
+      have : i = j := h.wf.uniq i j (by rw [(o5 hr).1]; decide) (by rw [hl]; decide) (by rw [hk, hkj])
+      subst this
+      rw [(o5 hr).1] at hl; cases hl
+    · rintro ⟨hv, hnl⟩
+      obtain ⟨i, hs, hk⟩ := h.cover k hv
+      obtain ⟨_, o2, _, _, _, _, o7, _⟩ := h.slot i
+      refine ⟨i, ?_, hk⟩
+      have hnp : (sget x.keys.slots i).published = false := by
+        cases hp : (sget x.keys.slots i).published with
+        | false => rfl
+        | true => exact absurd ⟨i, (o2 hp).1, (o2 hp).2, hk⟩ hnl
+      cases hr : (sget x.keys.slots i).removed with
+      | true => rfl
+      | false => exact absurd hv (hk ▸ o7 hs hnp hr)
+
+/-- **delta_coherent (TSD, key level)**: with `V0` the valid keys at the start of the window (cycle):
+    `keys = (V0 \ removed) ∪ added`, `added ∩ removed = ∅`, `added ⊆ keys`, `removed ∩ keys = ∅`,
+    `removed ⊆ V0`. -/
+theorem tsd_delta_coherent {x : TSD} {V0 : List Key} (h : x.Inv V0) :
+    (∀ k, k ∈ x.validKeys ↔ (k ∈ V0 ∧ k ∉ removedKeysRaw x.keys.slots) ∨ k ∈ addedKeysRaw x.keys.slots) ∧
+    (∀ k, ¬ (k ∈ addedKeysRaw x.keys.slots ∧ k ∈ removedKeysRaw x.keys.slots)) ∧
+    (∀ k, k ∈ addedKeysRaw x.keys.slots → k ∈ x.validKeys) ∧
+    (∀ k, k ∈ removedKeysRaw x.keys.slots → k ∉ x.validKeys) ∧
+    (∀ k, k ∈ removedKeysRaw x.keys.slots → k ∈ V0) := by
+  refine ⟨?_, ?_, ?_, ?_, ?_⟩
+  · intro k
+    obtain ⟨ha, hr⟩ := tsd_delta_canonical h k
+    rw [ha, hr]
+    by_cases hv : k ∈ V0 <;> by_cases hx : k ∈ x.validKeys <;> simp [hv, hx]
+  · intro k
+    obtain ⟨ha, hr⟩ := tsd_delta_canonical h k
+    rw [ha, hr]
+    rintro ⟨⟨h1, _⟩, _, h2⟩; exact h2 h1
+  · intro k hk; exact ((tsd_delta_canonical h k).1.mp hk).1
+  · intro k hk; exact ((tsd_delta_canonical h k).2.mp hk).2
+  · intro k hk; exact ((tsd_delta_canonical h k).2.mp hk).1
+
+/-- **modified keys ⊆ value' (ceiling)**: a key reported modified is a live key with a valid value -/
+theorem tsd_modified_subset_value {x : TSD} {V0 : List Key} (h : x.Inv V0) (k : Key)
+    (hk : k ∈ (modifiedItemsRaw x.keys.slots).map (·.1)) : k ∈ x.validKeys := by
+  simp only [modifiedItemsRaw, List.map_map, List.mem_map, List.mem_filter, Function.comp_apply] at hk
+  obtain ⟨s, ⟨hs, hp⟩, rfl⟩ := hk
+  obtain ⟨i, _, rfl⟩ := exists_sget_of_mem hs
+  simp only [Bool.and_eq_true, beq_iff_eq] at hp
+  obtain ⟨_, o2, _, _, _, _, _, o8⟩ := h.slot i
+  have hpub := o8 hp.2
+  exact mem_validKeys.mpr ⟨i, (o2 hpub).1, (o2 hpub).2, rfl⟩
+
+/-- **removed keys stay readable**: a slot reported removed is still constructed (pending erase, hence not in
+    the free list and not reusable before `erase_pending`) and its child still holds its last value -/
+theorem tsd_removed_readable {x : TSD} {V0 : List Key} (h : x.Inv V0) (i : Nat)
+    (hr : (sget x.keys.slots i).removed = true) :
+    (sget x.keys.slots i).st = .pending ∧ (sget x.keys.slots i).clmt ≠ 0 ∧ i ∉ x.keys.free := by
+  obtain ⟨_, _, _, _, o5, _⟩ := h.slot i
+  refine ⟨(o5 hr).1, (o5 hr).2.2, ?_⟩
+  intro hf
+  have := (h.wf.free_ok i hf).2
+  rw [(o5 hr).1] at this; cases this
+
+structure GDict where
+  x : TSD := {}
+  v0 : List Key := []
+  hist : List (List Key × List Key) := []
+
+def GDict.step (g : GDict) (o : DictOp) : GDict :=
+  { x := g.x.step o
+    v0 := g.x.ghost g.v0 o.time
+    hist := if o.time ≤ g.x.deltaTime then g.hist
+            else g.hist ++ [(addedKeysRaw g.x.keys.slots, removedKeysRaw g.x.keys.slots)] }
+
+def GDict.run (ops : List DictOp) : GDict := ops.foldl GDict.step {}
+
+theorem GDict.run_x (ops : List DictOp) : (GDict.run ops).x = TSD.run {} ops := by
+  have : ∀ (g : GDict), (ops.foldl GDict.step g).x = TSD.run g.x ops := by
+    induction ops with
+    | nil => intro g; rfl
+    | cons o rest ih => intro g; simp only [List.foldl_cons, TSD.run]; exact ih _
+  exact this {}
+
+theorem GDict.run_snoc (ops : List DictOp) (o : DictOp) : GDict.run (ops ++ [o]) = (GDict.run ops).step o := by
+  simp [GDict.run, List.foldl_append]
+
+/-- **tsd_inv_reachable**: every reachable TSD state satisfies the invariant relative to the ghost -/
+theorem tsd_inv_reachable (ops : List DictOp) : (GDict.run ops).x.Inv (GDict.run ops).v0 := by
+  have : ∀ (g : GDict), g.x.Inv g.v0 → (ops.foldl GDict.step g).x.Inv (ops.foldl GDict.step g).v0 := by
+    induction ops with
+    | nil => intro g h; exact h
+    | cons o rest ih =>
+      intro g h
+      simp only [List.foldl_cons]
+      exact ih _ (TSD.step_inv h o).1
+  exact this {} TSD.Inv_empty
+
+/-- **slot_inv (ceiling), TSD**: as for TSS, plus: only live slots with a valid child are published, a
+    pending-erase or free slot is not, and modified bits sit on published slots only. -/
+theorem tsd_slot_inv_reachable (ops : List DictOp) :
+    let s := (TSD.run {} ops).keys
+    (∀ i j, (sget s.slots i).st ≠ .free → (sget s.slots j).st ≠ .free →
+      (sget s.slots i).key = (sget s.slots j).key → i = j) ∧
+    (∀ i ∈ s.free, i < s.slots.length ∧ (sget s.slots i).st = .free) ∧ s.free.Nodup ∧
+    (∀ i, (sget s.slots i).st = .pending → i ∈ s.pend) ∧
+    (∀ i, (sget s.slots i).published = true ↔ ((sget s.slots i).st = .live ∧ (sget s.slots i).clmt ≠ 0)) ∧
+    (∀ i, (sget s.slots i).modified = true → (sget s.slots i).published = true) := by
+  have h := tsd_inv_reachable ops
+  rw [GDict.run_x] at h
+  refine ⟨h.wf.uniq, h.wf.free_ok, h.wf.free_nodup, h.wf.pend_mem, ?_, ?_⟩
+  · intro i
+    obtain ⟨_, o2, o3, _⟩ := h.slot i
+    exact ⟨o2, fun hh => o3 hh.1 hh.2⟩
+  · intro i
+    obtain ⟨_, _, _, _, _, _, _, o8⟩ := h.slot i
+    exact o8
+
+/-- set-then-erase of a key without a value inside one cycle leaves no trace in the key set or its delta -/
+theorem tsd_set_erase_no_trace {x : TSD} {V0 : List Key} (h : x.Inv V0) {t : Time} (h0 : t ≠ 0)
+    (ht : t ≤ x.deltaTime) {k : Key} (v : Int) (hk : k ∉ x.validKeys) :
+    let x' := ((x.set t k v).erase t k).1
+    x'.Inv V0 ∧ ∀ k', (k' ∈ x'.validKeys ↔ k' ∈ x.validKeys) ∧
+      (k' ∈ addedKeysRaw x'.keys.slots ↔ k' ∈ addedKeysRaw x.keys.slots) ∧
+      (k' ∈ removedKeysRaw x'.keys.slots ↔ k' ∈ removedKeysRaw x.keys.slots) := by
+  intro x'
+  have h1 := TSD.set_inv h h0 k v
+  rw [TSD.ghost_of_le ht] at h1
+  have h2 := TSD.erase_inv h1.1 t k
+  rw [TSD.ghost_of_le (by rw [h1.2]; omega)] at h2
+  have hv : ∀ k', k' ∈ x'.validKeys ↔ k' ∈ x.validKeys := by
+    intro k'
+    show k' ∈ ((x.set t k v).erase t k).1.validKeys ↔ _
+    rw [TSD.validKeys_erase h1.1, TSD.validKeys_set h h0]
+    constructor
+    · rintro ⟨hne, rfl | hx⟩
+      · exact absurd rfl hne
+      · exact hx
+    · intro hx; exact ⟨fun e => hk (e ▸ hx), Or.inr hx⟩
+  refine ⟨h2.1, fun k' => ⟨hv k', ?_, ?_⟩⟩
+  · rw [(tsd_delta_canonical h2.1 k').1, (tsd_delta_canonical h k').1, hv k']
+  · rw [(tsd_delta_canonical h2.1 k').2, (tsd_delta_canonical h k').2, hv k']
+
+/-- erase-then-set of a valid key inside one cycle leaves no trace in the key set or its structural delta -/
+theorem tsd_erase_set_no_trace {x : TSD} {V0 : List Key} (h : x.Inv V0) {t : Time} (h0 : t ≠ 0)
+    (ht : t ≤ x.deltaTime) {k : Key} (v : Int) (hk : k ∈ x.validKeys) :
+    let x' := (x.erase t k).1.set t k v
+    x'.Inv V0 ∧ ∀ k', (k' ∈ x'.validKeys ↔ k' ∈ x.validKeys) ∧
+      (k' ∈ addedKeysRaw x'.keys.slots ↔ k' ∈ addedKeysRaw x.keys.slots) ∧
+      (k' ∈ removedKeysRaw x'.keys.slots ↔ k' ∈ removedKeysRaw x.keys.slots) := by
+  intro x'
+  have h1 := TSD.erase_inv h t k
+  rw [TSD.ghost_of_le ht] at h1
+  have h2 := TSD.set_inv h1.1 h0 k v
+  rw [TSD.ghost_of_le (by rw [h1.2]; omega)] at h2
+  have hv : ∀ k', k' ∈ x'.validKeys ↔ k' ∈ x.validKeys := by
+    intro k'
+    show k' ∈ ((x.erase t k).1.set t k v).validKeys ↔ _
+    rw [TSD.validKeys_set h1.1 h0, TSD.validKeys_erase h]
+    constructor
+    · rintro (rfl | ⟨_, hx⟩)
+      · exact hk
+      · exact hx
+    · intro hx
+      by_cases e : k' = k
+      · exact Or.inl e
+      · exact Or.inr ⟨e, hx⟩
+  refine ⟨h2.1, fun k' => ⟨hv k', ?_, ?_⟩⟩
+  · rw [(tsd_delta_canonical h2.1 k').1, (tsd_delta_canonical h k').1, hv k']
+  · rw [(tsd_delta_canonical h2.1 k').2, (tsd_delta_canonical h k').2, hv k']
+
+def dmaxTime (ops : List DictOp) : Nat := ops.foldl (fun m o => max m o.time) 0
+
+theorem dmaxTime_snoc (ops : List DictOp) (o : DictOp) : dmaxTime (ops ++ [o]) = max (dmaxTime ops) o.time := by
+  simp [dmaxTime, List.foldl_append]
+
+theorem tsd_times (ops : List DictOp) : (GDict.run ops).x.deltaTime = dmaxTime ops := by
+  induction ops using snoc_ind with
+  | h0 => rfl
+  | hs l o ih =>
+    have h := TSD.step_inv (tsd_inv_reachable l) o
+    rw [GDict.run_snoc, dmaxTime_snoc]
+    show ((GDict.run l).x.step o).deltaTime = _
+    rw [h.2, ih]
+
+def DNondecreasing (ops : List DictOp) : Prop := ops.Pairwise (fun a b => a.time ≤ b.time)
+
+theorem dmaxTime_le_of_sorted {ops : List DictOp} {o : DictOp} (h : DNondecreasing (ops ++ [o])) :
+    dmaxTime ops ≤ o.time := by
+  have hall : ∀ a ∈ ops, a.time ≤ o.time := by
+    intro a ha
+    exact (List.pairwise_append.mp h).2.2 a ha o (by simp)
+  clear h
+  induction ops using snoc_ind with
+  | h0 => simp [dmaxTime]
+  | hs l a ih =>
+    rw [dmaxTime_snoc]
+    have h1 := ih (fun b hb => hall b (by simp [hb]))
+    have h2 := hall a (by simp)
+    omega
+
+/-- **a delta window is a cycle (TSD)**: with non-decreasing times the ghost is the valid key set at the
+    previous tick, and the output view at the cycle's time shows the raw structural bits -/
+theorem tsd_window_is_cycle (ops : List DictOp) (o : DictOp) (hs : DNondecreasing (ops ++ [o])) (h0 : o.time ≠ 0) :
+    (GDict.run (ops ++ [o])).v0 = (TSD.run {} (ops.filter (fun a => a.time < o.time))).validKeys ∧
+    (TSD.run {} (ops ++ [o])).structAt o.time = true ∧
+    (TSD.run {} (ops ++ [o])).addedAt o.time = addedKeysRaw (TSD.run {} (ops ++ [o])).keys.slots ∧
+    (TSD.run {} (ops ++ [o])).removedAt o.time = removedKeysRaw (TSD.run {} (ops ++ [o])).keys.slots := by
+  have hstruct : (TSD.run {} (ops ++ [o])).structAt o.time = true := by
+    rw [← GDict.run_x]
+    have := tsd_times (ops ++ [o])
+    rw [dmaxTime_snoc] at this
+    have hle := dmaxTime_le_of_sorted hs
+    simp only [TSD.structAt, this]
+    have : max (dmaxTime ops) o.time = o.time := by omega
+    simp [this, h0]
+  refine ⟨?_, hstruct, by simp [TSD.addedAt, hstruct], by simp [TSD.removedAt, hstruct]⟩
+  clear hstruct
+  induction ops using snoc_ind generalizing o with
+  | h0 =>
+    simp only [List.nil_append, GDict.run, List.foldl_cons, List.foldl_nil, GDict.step, TSD.ghost, List.filter_nil,
+      TSD.run]
+    have : ¬ o.time ≤ (({} : GDict).x).deltaTime := by
+      show ¬ o.time ≤ 0
+      omega
+    simp [this]
+  | hs l p ih =>
+    have hsl : DNondecreasing (l ++ [p]) := (List.pairwise_append.mp hs).1
+    have hpo : p.time ≤ o.time := (List.pairwise_append.mp hs).2.2 p (by simp) o (by simp)
+    have hdt : (GDict.run (l ++ [p])).x.deltaTime = p.time := by
+      rw [tsd_times (l ++ [p]), dmaxTime_snoc]
+      have := dmaxTime_le_of_sorted hsl
+      omega
+    rw [GDict.run_snoc]
+    show (GDict.run (l ++ [p])).x.ghost (GDict.run (l ++ [p])).v0 o.time = _
+    unfold TSD.ghost
+    rw [hdt]
+    by_cases hle : o.time ≤ p.time
+    · have heq : o.time = p.time := by omega
+      simp only [hle, ↓reduceIte]
+      rw [ih p hsl (by omega)]
+      simp only [List.filter_append, List.filter_cons, List.filter_nil, heq, Nat.lt_irrefl, decide_false,
+        Bool.false_eq_true, ↓reduceIte, List.append_nil]
+    · simp only [hle, ↓reduceIte]
+      rw [GDict.run_x]
+      have hall : ∀ a ∈ l ++ [p], a.time < o.time := by
+        intro a ha
+        rcases List.mem_append.mp ha with ha | ha
+        · have := (List.pairwise_append.mp hsl).2.2 a ha p (by simp)
+          omega
+        · simp at ha; subst ha; omega
+      have : (l ++ [p]).filter (fun a => decide (a.time < o.time)) = l ++ [p] := by
+        apply List.filter_eq_self.mpr
+        intro a ha; simpa using hall a ha
+      rw [this]
+
+theorem tsd_ghost_eq_fold (ops : List DictOp) (k : Key) :
+    k ∈ (GDict.run ops).v0 ↔ k ∈ foldDeltas (GDict.run ops).hist := by
+  induction ops using snoc_ind generalizing k with
+  | h0 => simp [GDict.run, foldDeltas]
+  | hs l o ih =>
+    rw [GDict.run_snoc]
+    simp only [GDict.step, TSD.ghost]
+    by_cases hle : o.time ≤ (GDict.run l).x.deltaTime
+    · simp only [hle, ↓reduceIte]; exact ih k
+    · simp only [hle, ↓reduceIte, foldDeltas, List.foldl_append, List.foldl_cons, List.foldl_nil]
+      rw [mem_applyDelta]
+      have hc := (tsd_delta_coherent (tsd_inv_reachable l)).1 k
+      rw [hc, ih k]
+      rfl
+
+/-- **from empty the valid key set equals the fold of all structural deltas** -/
+theorem tsd_value_eq_fold (ops : List DictOp) (k : Key) :
+    k ∈ (TSD.run {} ops).validKeys ↔
+      k ∈ applyDelta (foldDeltas (GDict.run ops).hist)
+        (addedKeysRaw (TSD.run {} ops).keys.slots, removedKeysRaw (TSD.run {} ops).keys.slots) := by
+  rw [mem_applyDelta, ← tsd_ghost_eq_fold, ← GDict.run_x]
+  exact (tsd_delta_coherent (tsd_inv_reachable ops)).1 k
+
+/-! ### TSD value level: the full statement, and why it is NOT a theorem of the code as it stands
+
+The canonical TSD delta is `Bundle{removed : Set<K>, modified : Map<K, delta(V)>}` (`ts_delta.h`), i.e. what
+`removed_keys()` and `modified_items()` show.  "The value observed at any tick equals the previous value
+with that tick's delta applied" therefore reads as `TSDValueDeltaCoherent` below.  The model (and the real
+code: replay `corpus/C05/tsddefects_01_rewrite.txt`, stream `tsd-defects`) violates it: when a key whose child was
+written in this cycle is erased and written again in the same cycle, the slot is resurrected
+(`reuse_existing_slot`), `remove_key` has cleared its `modified_` bit, and the second child write is not the
+first of its evaluation time, so `record_child_modified` is never called again: the key has a (new) value
+but is absent from `modified_items()`. -/
+
+def dictLookup (l : List (Key × Int)) (k : Key) : Option Int := (l.find? (fun p => p.1 == k)).map (·.2)
+
+/-- previous value with the delta `(removed keys, modified items)` applied -/
+def applyDictDelta (v : List (Key × Int)) (removed : List Key) (modified : List (Key × Int)) : List (Key × Int) :=
+  modified ++ v.filter (fun p => !removed.contains p.1)
+
+/-- FULL statement of the property for TSD values (kept visible; it does not hold, see below) -/
+def TSDValueDeltaCoherent : Prop :=
+  ∀ (ops : List DictOp) (o : DictOp), DNondecreasing (ops ++ [o]) → o.time ≠ 0 →
+    ∀ k, dictLookup (TSD.run {} (ops ++ [o])).validItems k =
+      dictLookup (applyDictDelta (TSD.run {} (ops.filter (fun a => a.time < o.time))).validItems
+        ((TSD.run {} (ops ++ [o])).removedAt o.time) ((TSD.run {} (ops ++ [o])).modifiedItemsAt o.time)) k
+
+/-- kernel-checked counterexample (the same history fails on the real `TSOutput`): in one cycle
+    `set 1 := 10; erase 1; set 1 := 12` ends with value `{1: 12}`, `added = {1}`, and an EMPTY modified map -/
+theorem tsd_value_delta_incoherent : ¬ TSDValueDeltaCoherent := by
+  intro h
+  have := h [.set 1 1 10, .erase 1 1] (.set 1 1 12) (by simp [DNondecreasing, DictOp.time]) (by decide) 1
+  revert this
+  decide
+
+/-- what does hold at value level in every reachable state (partial): the modified map only names keys of
+    the value and carries their current values -/
+theorem tsd_value_delta_partial (ops : List DictOp) (p : Key × Int)
+    (hp : p ∈ modifiedItemsRaw (TSD.run {} ops).keys.slots) : p ∈ (TSD.run {} ops).validItems := by
+  have h := tsd_inv_reachable ops
+  rw [GDict.run_x] at h
+  simp only [modifiedItemsRaw, List.mem_map, List.mem_filter] at hp
+  obtain ⟨s, ⟨hs, hb⟩, rfl⟩ := hp
+  obtain ⟨i, _, rfl⟩ := exists_sget_of_mem hs
+  simp only [Bool.and_eq_true, beq_iff_eq] at hb
+  obtain ⟨_, o2, _, _, _, _, _, o8⟩ := h.slot i
+  have hpub := o8 hb.2
+  simp only [TSD.validItems, List.mem_map, List.mem_filter]
+  refine ⟨sget (TSD.run {} ops).keys.slots i, ⟨hs, ?_⟩, rfl⟩
+  simp [Slot.member, (o2 hpub).1, (o2 hpub).2]
+
+/-- the `key_set()` projection read as a TSS: value = live keys, delta gated by the key set's own
+    `last_modified_time`.  FULL statement (does not hold, see below). -/
+def TSDKeySetCoherent : Prop :=
+  ∀ (ops : List DictOp) (o : DictOp), DNondecreasing (ops ++ [o]) → o.time ≠ 0 →
+    let cur := TSD.run {} (ops ++ [o])
+    let prev := TSD.run {} (ops.filter (fun a => a.time < o.time))
+    let ticked := cur.keySetLmt == o.time
+    ∀ k, k ∈ liveKeys cur.keys.slots ↔
+      (k ∈ liveKeys prev.keys.slots ∧ ¬ (ticked ∧ k ∈ removedKeysRaw cur.keys.slots)) ∨
+      (ticked ∧ k ∈ addedKeysRaw cur.keys.slots)
+
+/-- kernel-checked counterexample (same on the real `TSOutput`, `corpus/C05/tsddefects_02_late.txt`): `at(k)` creates the key
+    without a value: the key set ticks and contains `k`, but `k` is not reported added (and when the value
+    arrives in a later cycle the dictionary reports `k` added while the key set does not tick). -/
+theorem tsd_keyset_incoherent : ¬ TSDKeySetCoherent := by
+  intro h
+  have := (h [] (.at 1 2) (by simp [DNondecreasing]) (by decide) 2).mp (by decide)
+  revert this
+  decide
+
+/-! ## tick-count TSW -/
+
+/-- ghost-extended window: the model state and the list of accepted pushes `(value, time)` since the last
+    clear (an operation refused with an error changes nothing) -/
+structure GWin where
+  w : Win
+  acc : List (Int × Time)
+
+def GWin.step (g : GWin) (o : WinOp) : GWin :=
+  match g.w.step o with
+  | .error _ => g
+  | .ok w' =>
+    { w := w'
+      acc := match o with
+        | .push t v => g.acc ++ [(v, t)]
+        | .clear _ => []
+        | .clearPush t v => [(v, t)] }
+
+def GWin.run (period minPeriod : Nat) (ops : List WinOp) : GWin :=
+  ops.foldl GWin.step ⟨Win.init period minPeriod, []⟩
+
+/-- erasing the ghost gives the plain run of the model -/
+theorem GWin.run_w (period minPeriod : Nat) (ops : List WinOp) :
+    (GWin.run period minPeriod ops).w = ops.foldl Win.stepD (Win.init period minPeriod) := by
+  have : ∀ g : GWin, (ops.foldl GWin.step g).w = ops.foldl Win.stepD g.w := by
+    induction ops with
+    | nil => intro g; rfl
+    | cons o rest ih =>
+      intro g
+      simp only [List.foldl_cons]
+      rw [ih]
+      congr 1
+      unfold GWin.step Win.stepD
+      cases g.w.step o <;> rfl
+  exact this _
+
+/-- the refinement relation between ring buffer and pushed list -/
+structure WinRel (g : GWin) (period minPeriod : Nat) : Prop where
+  wf : g.w.WF
+  items : g.w.items = lastN period g.acc
+  period_eq : g.w.period = period
+  min_eq : g.w.minPeriod = minPeriod
+
+theorem WinRel.push {g : GWin} {p m : Nat} (h : WinRel g p m) (v : Int) (t : Time) (lmt' : Time) :
+    WinRel ⟨{ (g.w.pushRaw v t) with lmt := lmt' }, g.acc ++ [(v, t)]⟩ p m ∧
+    (p ≤ g.acc.length → (g.w.pushRaw v t).evicted = g.acc[g.acc.length - p]?.map (·.1) ∧
+      (g.w.pushRaw v t).evictedTime = t) := by
+  have hsz : g.w.size = min g.acc.length p := by
+    have := congrArg List.length h.items
+    simpa [Win.items, length_lastN] using this
+  by_cases hlt : g.w.size < g.w.period
+  · obtain ⟨h1, h2, _, _, h5, h6, _⟩ := Win.push_append h.wf hlt v t
+    have hacc : g.acc.length < p := by rw [h.period_eq] at hlt; omega
+    refine ⟨⟨?_, ?_, h5.trans h.period_eq, h6.trans h.min_eq⟩, fun hle => absurd hle (by omega)⟩
+    · exact ⟨h1.len, h1.pos, h1.size_le, h1.head_lt, h1.head_zero⟩
+    · show Win.items { (g.w.pushRaw v t) with lmt := lmt' } = _
+      have : Win.items { (g.w.pushRaw v t) with lmt := lmt' } = (g.w.pushRaw v t).items := rfl
+      rw [this, h2, h.items, lastN_snoc_lt _ hacc]
+  · have hfull : g.w.size = g.w.period := by have := h.wf.size_le; omega
+    obtain ⟨h1, h2, h3, h4, h5, h6, _⟩ := Win.push_full h.wf hfull v t
+    have hacc : p ≤ g.acc.length := by rw [h.period_eq] at hfull; omega
+    have hp : 0 < p := by rw [← h.period_eq]; exact h.wf.pos
+    refine ⟨⟨?_, ?_, h5.trans h.period_eq, h6.trans h.min_eq⟩, fun _ => ⟨?_, h4⟩⟩
+    · exact ⟨h1.len, h1.pos, h1.size_le, h1.head_lt, h1.head_zero⟩
+    · show Win.items { (g.w.pushRaw v t) with lmt := lmt' } = _
+      have : Win.items { (g.w.pushRaw v t) with lmt := lmt' } = (g.w.pushRaw v t).items := rfl
+      rw [this, h2, h.items, lastN_snoc_ge _ hp hacc]
+    · rw [h3, h.items, head?_lastN hacc hp]
+
+theorem WinRel.clear {g : GWin} {p m : Nat} (h : WinRel g p m) (t : Time) (lmt' : Time) :
+    WinRel ⟨{ (g.w.clearRaw t) with lmt := lmt' }, []⟩ p m := by
+  obtain ⟨h1, h2, h3, h4⟩ := Win.clear_spec h.wf t
+  refine ⟨⟨h1.len, h1.pos, h1.size_le, h1.head_lt, h1.head_zero⟩, ?_, h3.trans h.period_eq, h4.trans h.min_eq⟩
+  show Win.items { (g.w.clearRaw t) with lmt := lmt' } = _
+  have : Win.items { (g.w.clearRaw t) with lmt := lmt' } = (g.w.clearRaw t).items := rfl
+  rw [this, h2]; simp [lastN]
+
+theorem WinRel.step {g : GWin} {p m : Nat} (h : WinRel g p m) (o : WinOp) : WinRel (g.step o) p m := by
+  unfold GWin.step Win.step
+  cases o with
+  | push t v =>
+    simp only
+    by_cases h0 : (t == 0) = true
+    · simp only [h0, ↓reduceIte]; exact h
+    · simp only [h0, Bool.false_eq_true, ↓reduceIte]
+      by_cases h1 : (g.w.lmt == t) = true
+      · simp only [h1, ↓reduceIte]; exact h
+      · simp only [h1, Bool.false_eq_true, ↓reduceIte]
+        exact (WinRel.push h v t _).1
+  | clear t =>
+    simp only
+    by_cases h0 : (t == 0) = true
+    · simp only [h0, ↓reduceIte]; exact h
+    · simp only [h0, Bool.false_eq_true, ↓reduceIte]
+      by_cases h1 : (g.w.lmt == t) = true
+      · simp only [h1, ↓reduceIte]; exact h
+      · simp only [h1, Bool.false_eq_true, ↓reduceIte]
+        exact WinRel.clear h t _
+  | clearPush t v =>
+    simp only
+    by_cases h0 : (t == 0) = true
+    · simp only [h0, ↓reduceIte]; exact h
+    · simp only [h0, Bool.false_eq_true, ↓reduceIte]
+      by_cases h1 : (g.w.lmt == t) = true
+      · simp only [h1, ↓reduceIte]; exact h
+      · simp only [h1, Bool.false_eq_true, ↓reduceIte]
+        have hc := WinRel.clear h t (recMod g.w.lmt t)
+        have := (WinRel.push hc v t (recMod (recMod g.w.lmt t) t)).1
+        simpa using this
+
+/-- **window_last_n**: after ANY sequence of window operations (pushes, clears, refused second ticks, in any
+    time order) on a tick window of period `N > 0`, with `acc` the `k` pushes accepted since the last
+    clear: the window holds exactly the last `min(k, N)` of them, in order, with their times; its size is
+    `min(k, N)`; and `all_valid ↔ ticked ∧ min(k, N) ≥ min_period`. -/
+theorem window_last_n (N minPeriod : Nat) (hN : 0 < N) (ops : List WinOp) :
+    let g := GWin.run N minPeriod ops
+    g.w.values = (lastN N g.acc).map (·.1) ∧ g.w.times = (lastN N g.acc).map (·.2) ∧
+    g.w.size = min g.acc.length N ∧
+    (g.w.allValid = true ↔ (g.w.lmt ≠ 0 ∧ minPeriod ≤ min g.acc.length N)) ∧
+    (g.w.full = true ↔ N ≤ g.acc.length) := by
+  intro g
+  have hrel : WinRel g N minPeriod := by
+    have : ∀ (ops : List WinOp) (g0 : GWin), WinRel g0 N minPeriod → WinRel (ops.foldl GWin.step g0) N minPeriod := by
+      intro ops
+      induction ops with
+      | nil => intro g0 h; exact h
+      | cons o rest ih => intro g0 h; exact ih _ (WinRel.step h o)
+    exact this ops _ ⟨Win.WF_init hN, by simp [Win.items_init, lastN], rfl, rfl⟩
+  have hsz : g.w.size = min g.acc.length N := by
+    have := congrArg List.length hrel.items
+    simpa [Win.items, length_lastN] using this
+  refine ⟨by rw [Win.values_eq, hrel.items], by rw [Win.times_eq, hrel.items], hsz, ?_, ?_⟩
+  · simp only [Win.allValid, Bool.and_eq_true, bne_iff_ne, ne_eq, decide_eq_true_eq, hrel.min_eq, hsz]
+  · simp only [Win.full, Bool.and_eq_true, bne_iff_ne, ne_eq, beq_iff_eq, hrel.period_eq, hsz]
+    constructor
+    · rintro ⟨_, h⟩; omega
+    · intro h; exact ⟨by omega, by omega⟩
+
+/-- **evicted element**: a push accepted when `k ≥ N` pushes are already held evicts exactly the
+    `(k+1-N)`-th accepted push (index `k - N`, zero based) and stamps the eviction with the push time -/
+theorem window_evicted (N minPeriod : Nat) (hN : 0 < N) (ops : List WinOp) (t : Time) (v : Int)
+    (ht : t ≠ 0) (hfresh : (GWin.run N minPeriod ops).w.lmt ≠ t)
+    (hfull : N ≤ (GWin.run N minPeriod ops).acc.length) :
+    let g := GWin.run N minPeriod ops
+    let g' := GWin.run N minPeriod (ops ++ [.push t v])
+    g'.acc = g.acc ++ [(v, t)] ∧ g'.w.evicted = g.acc[g.acc.length - N]?.map (·.1) ∧ g'.w.evictedTime = t := by
+  intro g g'
+  have hrel : WinRel g N minPeriod := by
+    have : ∀ (ops : List WinOp) (g0 : GWin), WinRel g0 N minPeriod → WinRel (ops.foldl GWin.step g0) N minPeriod := by
+      intro ops
+      induction ops with
+      | nil => intro g0 h; exact h
+      | cons o rest ih => intro g0 h; exact ih _ (WinRel.step h o)
+    exact this ops _ ⟨Win.WF_init hN, by simp [Win.items_init, lastN], rfl, rfl⟩
+  have hg' : g' = g.step (.push t v) := by
+    show GWin.run N minPeriod (ops ++ [.push t v]) = _
+    simp [GWin.run, List.foldl_append]; rfl
+  have h0 : (t == 0) = false := by simpa using ht
+  have h1 : (g.w.lmt == t) = false := by simpa using hfresh
+  have hp := (WinRel.push hrel v t (recMod g.w.lmt t)).2 hfull
+  rw [hg']
+  unfold GWin.step Win.step
+  simp only [h0, Bool.false_eq_true, ↓reduceIte, h1]
+  exact ⟨trivial, hp.1, hp.2⟩
+
+
+/-! ## non-vacuity: concrete non-trivial states meeting the hypotheses -/
+
+/-- a reachable TSS state with a non-empty window-start value, an added and a removed key, a pending-erase
+    slot and a resurrected one (6 is removed and re-added in cycle 2) -/
+example :
+    let g := GSet.run [.add 1 5, .add 1 6, .rem 2 5, .rem 2 6, .add 2 7, .add 2 6]
+    g.v0 = [5, 6] ∧ g.x.value = [6, 7] ∧ addedKeysRaw g.x.keys.slots = [7] ∧ removedKeysRaw g.x.keys.slots = [5] ∧
+    g.x.deltaTime = 2 ∧ (sget g.x.keys.slots 0).st = .pending := by decide
+
+/-- hypotheses of `tss_add_remove_no_trace` / `tss_remove_add_no_trace` (state above, `t = 2`, keys 9 / 6) -/
+example :
+    let x := TSS.run {} [.add 1 5, .add 1 6, .rem 2 5]
+    (2 ≤ x.deltaTime) ∧ (9 ∉ x.value) ∧ (6 ∈ x.value) := by decide
+
+/-- hypotheses of `tss_window_is_cycle` -/
+example : Nondecreasing ([.add 1 5, .add 1 6, .rem 2 5] ++ [SetOp.add 2 7]) ∧ (SetOp.add 2 7).time ≠ 0 := by
+  simp [Nondecreasing, SetOp.time]
+
+/-- slot reuse after the physical erase: key 8 lands in the slot key 5 occupied (capacity 8, free list LIFO) -/
+example :
+    let x := TSS.run {} [.add 1 5, .add 1 6, .rem 2 5, .add 3 8]
+    (sget x.keys.slots 0).key = 8 ∧ (sget x.keys.slots 0).st = .live ∧ x.value = [8, 6] := by decide
+
+/-- growth across the first capacity boundary (8 -> 16) keeps bits and keys -/
+example :
+    let x := TSS.run {} ((List.range 9).map fun i => SetOp.add 1 (Int.ofNat i))
+    x.keys.slots.length = 16 ∧ x.value.length = 9 ∧ (addedKeysRaw x.keys.slots).length = 9 := by decide
+
+/-- a reachable TSD state: key 1 valid from cycle 1, updated in cycle 2, key 2 erased, key 3 added -/
+example :
+    let g := GDict.run [.set 1 1 10, .set 1 2 20, .set 2 1 11, .erase 2 2, .set 2 3 30]
+    g.v0 = [1, 2] ∧ g.x.validItems = [(1, 11), (3, 30)] ∧ addedKeysRaw g.x.keys.slots = [3] ∧
+    removedKeysRaw g.x.keys.slots = [2] ∧ modifiedItemsRaw g.x.keys.slots = [(1, 11), (3, 30)] := by decide
+
+/-- hypotheses of `tsd_set_erase_no_trace` / `tsd_erase_set_no_trace` -/
+example :
+    let x := TSD.run {} [.set 1 1 10, .set 1 2 20, .set 2 1 11]
+    (2 ≤ x.deltaTime) ∧ (7 ∉ x.validKeys) ∧ (2 ∈ x.validKeys) := by decide
+
+/-- a window of period 3 after 5 pushes and the hypotheses of `window_evicted` for a sixth -/
+example :
+    let g := GWin.run 3 2 [.push 1 10, .push 2 11, .push 3 12, .push 4 13, .push 5 14]
+    g.w.values = [12, 13, 14] ∧ g.w.head = 2 ∧ g.w.evicted = some 11 ∧ g.w.lmt ≠ 6 ∧ 3 ≤ g.acc.length := by decide
 
 end HgVerif.Slots
